@@ -36,7 +36,7 @@ META["C08"] = {
     "level": "model_checking",
     "tiers": {
         "quick": {"shards": 9, "deadline_s": 200,
-                  "bounds": "C <= 4 channels; initial states: uniform default and all constructor-normalised vectors over {0,1,2,0.1}; (beta,min) in {1/4,1/2,1}x{0,0.01,0.9/C}; data alphabet {0,1,1e-3,1e3,1e-30,1e30}^C at depth 1, {0,1,1e-3,1e30}^C deeper; depth 2 for C<=3, depth 1 for C=4; 3 types; plus 5-iteration real runs"},
+                  "bounds": "C <= 4 channels; initial states: uniform default and all constructor-normalised vectors over {0,1,2,0.1}; (beta,min) in {1/4,1/2,1}x{0,0.01,0.9/C}; data alphabet {0,1,1e-3,1e3,1e-30,1e30}^C at depth 1, {0,1,1e-3,1e30}^C deeper; depth 2 for C<=3, depth 1 for C=4; 3 types; plus 5-iteration real runs and mpi_multi_channel runs under the MPI shim with 2 and 3 ranks"},
         "thorough": {"shards": 9, "deadline_s": 1500,
                      "bounds": "as quick with depth 3 for C<=3, depth 2 for C=4 (frontier capped at 400000 states per level, reported) and 8-iteration real runs"},
     },
@@ -100,7 +100,7 @@ META["C10"] = {
     "parts": 3,
     "tiers": {
         "quick": {"shards": 3, "deadline_s": 200,
-                  "bounds": "3 types x 9 standard engines x {PLAIN, VEGAS, MULTI-CHANNEL (weight touched or not)} x d in {1,2,3} x calls in {0,1,2,5} x 4 integrand patterns x {default, user grid / weights with one disabled channel, weights with a single enabled channel}; stored generators over 3 iterations (3,0,5 calls); engine ranges R = 2..4096, 2^k, 2^k+-1 (k <= 64), offsets 0,1,5"},
+                  "bounds": "3 types x 9 standard engines x {PLAIN, VEGAS, MULTI-CHANNEL (weight touched or not)} x d in {1,2,3} x calls in {0,1,2,5} x 4 integrand patterns x {default, user grid / weights with one disabled channel, weights with a single enabled channel}; stored generators over 3 iterations (3,0,5 calls); engine ranges R = 2..4096, 2^k, 2^k+-1 (k <= 64), offsets 0,1,5; every pattern of {0, 1/2, largest below 1} over the canonical numbers of two calls (scripted engine)"},
         "thorough": {"shards": 3, "deadline_s": 600, "bounds": "same as quick (the product is already complete)"},
     },
     "rule": "full product of configurations; the counting engine wrapper counts raw draws, the integrand snapshots the counter at every call; non-trivial = at least one call and a non-zero integrand pattern; distinct = distinct configurations",
@@ -239,7 +239,7 @@ META["C01"] = {
     "parts": 3,
     "tiers": {
         "quick": {"shards": 3, "deadline_s": 400,
-                  "bounds": "PLAIN d<=3, lattices 1,2,4,6 per dimension; VEGAS B in {2,3,4,5,8}: uniform, all strictly increasing eighth-lattice grids (B<=4) and all grids reached by BFS over real adaptation (4 adapting integrands x alpha in {0,0.5,1.5,3}, depth 3), lattices B x {1,2,3}, d=1 all grids, d=2 products of a subset; MULTI-CHANNEL C<=3 channels with splits 1/4,1/2,3/4: every composition of 8 into weights incl. zeros (sentinel density 1e30 in disabled channels), normalised / through the checkpoint constructor / unnormalised x3, jacobian in {1,2,1/4,1+y}, d<=2, lattice 12^d x 8; adapted weights reached by BFS over real refinement (3 integrands x beta x min, depth 3) in stratified form; all multilinear integrands over {1, y, 2-3y, -1+4y}; 3 types"},
+                  "bounds": "PLAIN d<=3, lattices 1,2,4,6 per dimension; VEGAS B in {2,3,4,5,8}: uniform, all strictly increasing eighth-lattice grids (B<=4) and all grids reached by BFS over real adaptation (4 adapting integrands x alpha in {0,0.5,1.5,3}, depth 3), lattices B x {1,2,3}, d=1 all grids, d=2 products of a subset; MULTI-CHANNEL C<=3 channels with splits 1/4,1/2,3/4: every composition of 8 into weights incl. zeros (sentinel density 1e30 in disabled channels), normalised / through the checkpoint constructor / unnormalised x3 / with an integrand that reads point.weight() itself / with a channel map that keeps state between its two requests, jacobian in {1,2,1/4,1+y}, d<=2, lattice 12^d x 8; adapted weights reached by BFS over real refinement (3 integrands x beta x min, depth 3) in stratified form; all multilinear integrands over {1, y, 2-3y, -1+4y}; 3 types"},
         "thorough": {"shards": 3, "deadline_s": 1800, "bounds": "as quick with adaptation depth 5 (grids) / 4 (weights), d=3 VEGAS products and eighth-split channel maps on an 840-point lattice"},
     },
     "rule": "nested enumeration of (grid | weight vector, lattice, integrand); the lattice engine makes one iteration visit every cell of the discretised cube (and every eighth of the channel-selection interval) exactly once; non-trivial = non-uniform grid, zero weight or non-unit jacobian; distinct = distinct cases; states/transitions count the adaptation BFS that produces the reachable grids and weights",
@@ -284,7 +284,7 @@ META["C04"] = {
     "parts": 6,
     "tiers": {
         "quick": {"shards": 6, "deadline_s": 500,
-                  "bounds": "mpi_plain / mpi_vegas / mpi_multi_channel (user weights with a disabled channel; plus, for a subset, one random number mapped to three coordinates and a single-channel integrand) x calls lists [0],[1],[2],[3],[5],[7,3],[4,4,4],[2,0,5],[1,1,1,1],[33],[64,31] x {dyadic integrand (exact sums), smooth integrand} x {no distribution, two distributions (1-d with 3 bins, 2-d with 2x2)} x {no target, target 0.35}; worlds 1,2,3 with every reduction order of every collective (P! left folds + tree, pruned by distinct reduced bytes); worlds 4,5,8,16,33 with ascending / descending / tree order; engines script, mt19937, ranlux24, minstd_rand; 3 types"},
+                  "bounds": "mpi_plain / mpi_vegas / mpi_multi_channel (user weights with a disabled channel; plus, for a subset, one random number mapped to three coordinates and a single-channel integrand) x calls lists [0],[1],[2],[3],[5],[7,3],[4,4,4],[2,0,5],[1,1,1,1],[33],[64,31] x {dyadic integrand (exact sums), smooth integrand, smooth integrand with non-finite values in some cells} x {no distribution, two distributions (1-d with 3 bins, 2-d with 2x2)} x {no target (silent callback), target 0.35 (verbose callback)}; worlds 1,2,3 with every reduction order of every collective (P! left folds + tree, pruned by distinct reduced bytes); worlds 4,5,8,16,33 with ascending / descending / tree order; engines script, mt19937, ranlux24, minstd_rand; 3 types"},
         "thorough": {"shards": 6, "deadline_s": 3000, "bounds": "as quick with every reduction order also for 4 ranks and every world size 5..33 in the three canonical orders"},
     },
     "rule": "stateless exploration of the MPI environment's choices: for each collective the environment chooses the order in which the ranks' contributions are combined; ranks are deterministic functions of the results received, so orders with identical reduced bytes have identical futures and one representative is continued; states = complete executions checked, transitions = rank-set executions (one per explored prefix); traces_validated_against_impl = complete executions whose per-rank logs were compared with the serial iteration of the tree under test",
